@@ -235,8 +235,11 @@ CATALOG = {
     },
     "method_kws": {
         "mk_0": (_v({}), False),
-        "mk_a": (_v({"max_nfev": 200}), False),
-        "mk_b": (_v({"max_nfev": 400}), False),
+        # (no max_nfev here: a fit that lmfit ABORTS at the evaluation limit
+        # is not reproducible from run to run, even within one process; a
+        # bit-for-bit comparison with a fresh copy would be a coin toss)
+        "mk_a": (_v({"ftol": 1e-10}), False),
+        "mk_b": (_v({"ftol": 1e-12}), False),
         # the same number written as int / as float inside the dictionary
         "mk_f_int": (_v({"factor": 10}), False),
         "mk_f_float": (_v({"factor": 10.0}), False),
